@@ -39,7 +39,7 @@ func (c08) Gen(r *rand.Rand, tier string, run int) *core.Case {
 	c.Sim = zzsim.Config{AuxSeed: r.Uint64()}
 	n := 4 + r.IntN(5)
 	for i := 0; i < n; i++ {
-		c.Ops = append(c.Ops, core.Op{Kind: c08kinds[r.IntN(len(c08kinds))], X: int64(r.Uint64() >> 1), Y: int64(r.IntN(4))})
+		c.Ops = append(c.Ops, core.Op{Kind: c08kinds[r.IntN(len(c08kinds))], X: int64(r.Uint64() >> 1), Y: int64(r.IntN(6))})
 	}
 	return c
 }
@@ -182,6 +182,35 @@ func c08build(kind string, r *rand.Rand, variant int) (enc []byte, dec c08decode
 				o.V = append(o.V, inner())
 			}
 			x = &o
+		case 4, 5:
+			// a struct type nobody has decoded before in this process (the name
+			// of its fields comes from the case), so that whatever the decoder
+			// remembers about a type is learnt within this very operation
+			pool := []reflect.Type{reflect.TypeOf(int32(0)), reflect.TypeOf(""), reflect.TypeOf(float64(0)), reflect.TypeOf([]string(nil)), reflect.TypeOf(gvInner{}), reflect.TypeOf(uint8(0)), reflect.TypeOf(int64(0))}
+			tag := fmt.Sprintf("%x", r.Uint64())
+			var fs []reflect.StructField
+			for i := 0; i < 2+r.IntN(4); i++ {
+				fs = append(fs, reflect.StructField{Name: fmt.Sprintf("F%s_%d", tag, i), Type: pool[r.IntN(len(pool))]})
+			}
+			pv := reflect.New(reflect.StructOf(fs))
+			for i := range fs {
+				f := pv.Elem().Field(i)
+				switch f.Kind() {
+				case reflect.Int32, reflect.Int64:
+					f.SetInt(int64(int32(r.Uint32())))
+				case reflect.Uint8:
+					f.SetUint(uint64(r.IntN(256)))
+				case reflect.String:
+					f.SetString(g.Str())
+				case reflect.Float64:
+					f.SetFloat(r.Float64())
+				case reflect.Slice:
+					f.Set(reflect.ValueOf([]string{g.Str(), g.Str()}))
+				case reflect.Struct:
+					f.Set(reflect.ValueOf(inner()))
+				}
+			}
+			x = pv.Interface()
 		default:
 			l := []gvPair{}
 			for i := 0; i < 1+r.IntN(3); i++ {
@@ -230,11 +259,24 @@ func (c08) Run(c *core.Case, env *core.Env) {
 		}
 		// the full encoding must decode and be consumed entirely, otherwise it
 		// is not a valid encoding: discarded and counted, never a pass
-		full := &sio.Reader{Data: enc, Frag: "random", R: r, EndErr: io.EOF}
-		if e := dec(full); e != nil || full.Off != L {
-			env.Probe("not-a-valid-encoding")
-			env.Note("discarded %s (%d bytes): err=%v consumed=%d", desc, L, e, full.Off)
+		// (for a type made for this operation, half of the time the prefixes
+		// come first: the first thing the decoder ever sees of the type is then
+		// a truncated encoding; the encoding is the library's own encoder's)
+		prefixesFirst := op.Kind == "govalue" && op.Y == 5
+		valid := func() bool {
+			full := &sio.Reader{Data: enc, Frag: "random", R: r, EndErr: io.EOF}
+			if e := dec(full); e != nil || full.Off != L {
+				env.Probe("not-a-valid-encoding")
+				env.Note("discarded %s (%d bytes): err=%v consumed=%d", desc, L, e, full.Off)
+				return false
+			}
+			return true
+		}
+		if !prefixesFirst && !valid() {
 			continue
+		}
+		if prefixesFirst {
+			env.Probe("prefixes-before-the-first-complete-decode")
 		}
 		h := env.Invoke(0, "truncate", fmt.Sprintf("#%d %s, %d bytes", i, desc, L))
 		cuts := make([]int, 0, L)
@@ -308,6 +350,9 @@ func (c08) Run(c *core.Case, env *core.Env) {
 			}
 		}
 		env.Return(h, fmt.Sprintf("%d truncated decodes", decodes), nil)
+		if prefixesFirst && !failed && !valid() {
+			continue
+		}
 		env.ProbeN("truncated-decodes", decodes)
 		env.ProbeN("cut-positions", len(cuts))
 		env.Probe("encodings-" + op.Kind)
